@@ -307,6 +307,25 @@ fn build_cat(variant: &str, fbits: i128, row: &[i128]) -> Result<Box<dyn DynMode
     })
 }
 
+#[derive(Debug, Clone, Copy)]
+struct MeanHintBinomial {
+    inner: probability::distribution::Binomial,
+    mean: usize,
+}
+
+impl probability::distribution::Distribution for MeanHintBinomial {
+    type Value = usize;
+    fn distribution(&self, x: f64) -> f64 {
+        self.inner.distribution(x)
+    }
+}
+
+impl probability::distribution::Inverse for MeanHintBinomial {
+    fn inverse(&self, _p: f64) -> usize {
+        self.mean
+    }
+}
+
 /// one fully parameterised non-categorical model
 fn build_one(model: &str, variant: &str, lo: i32, hi: i32, p0: i128, p0f: f64, p1f: f64) -> Result<Box<dyn DynModel>, String> {
     use probability::distribution::{Binomial, Cauchy, Gaussian, Laplace};
@@ -344,7 +363,13 @@ fn build_one(model: &str, variant: &str, lo: i32, hi: i32, p0: i128, p0f: f64, p
         "binomial" => {
             let n = i32::try_from(p0).map_err(|_| "n is not an i32".to_string())?;
             let q = DefaultLeakyQuantizer::<f64, i32>::new(0..=n);
-            Box::new(Direct(q.quantize(Binomial::new(n as usize, p1f))))
+            // Mirror of the bindings' `BinomialDistribution` (fix fe1c0d7/920cc66 in /repo): the
+            // dependency's `Binomial::inverse` does not terminate for some valid parameters, and the
+            // search result does not depend on the hint (theorem `C03_leaky_search_every_hint`).
+            Box::new(Direct(q.quantize(MeanHintBinomial {
+                inner: Binomial::new(n as usize, p1f),
+                mean: (n as f64 * p1f) as usize,
+            })))
         }
         _ => return Err(format!("unknown model {}", model)),
     })
